@@ -711,7 +711,7 @@ pub fn run_at(pool: &[KeyInfo], s: &Scenario, root: &Path, reversed: bool) -> Ou
     // (a verification that runs next to others - `NO_CHDIR` - is on a thread of its own already)
     let own_thread = in_thread || !chdir;
     let already_hung = crate::proto::HUNG.load(std::sync::atomic::Ordering::SeqCst);
-    let (res, hung) = match crate::proto::with_deadline_on(60, own_thread, body) {
+    let (res, hung) = match crate::proto::with_deadline_on(crate::proto::DEADLINE_SECS, own_thread, body) {
         Some(r) => (r, false),
         None => (Err(()), true),
     };
